@@ -8,42 +8,51 @@ From CK Require Import Base.
 From CK Require Import Circ.
 From CK Require Import Differentiate.
 From CK Require Import DiffReal.
+From CK Require Import Scalar.
+From CK Require Import Tensor.
+From CK Require Import Pexpr.
+From CK Require Import Exec.
+From CK Require Import Ops.
+From CK Require Import Hom.
+From CK Require Import DiffStruct.
+From CK Require Import LinkDiff.
 Close Scope Qc_scope. Close Scope Q_scope. Close Scope Z_scope. Open Scope nat_scope.
 
 (* for any abstract (iterated) partial-derivative operator Dv satisfying linearity and the independent-factor rules, block (i,t) of the differentiated circuit evaluates to Dv (nth t vars) of node i and the copy evaluates to node i *)
 Theorem C05_differentiate :
   forall (R : Type) (rO rI : R) (radd rmul : R -> R -> R),
          semi_ring_theory rO rI radd rmul eq ->
-         forall (D : Type) (DF : (asg D -> R) -> Prop),
-         (forall f g : asg D -> R, (forall y : asg D, f y = g y) -> DF f -> DF g) ->
-         (forall c : R, DF (fun _ : asg D => c)) ->
-         (forall f g : asg D -> R, DF f -> DF g -> DF (fun y : asg D => radd (f y) (g y))) ->
-         (forall f g : asg D -> R, DF f -> DF g -> DF (fun y : asg D => rmul (f y) (g y))) ->
-         forall Dv : nat -> (asg D -> R) -> asg D -> R,
-         (forall (v : nat) (f g : asg D -> R),
-          (forall y : asg D, f y = g y) -> forall y : asg D, Dv v f y = Dv v g y) ->
-         (forall (v : nat) (f g : asg D -> R) (y : asg D),
-          DF f -> DF g -> Dv v (fun y0 : asg D => radd (f y0) (g y0)) y = radd (Dv v f y) (Dv v g y)) ->
-         (forall (v : nat) (c : R) (f : asg D -> R) (y : asg D),
-          DF f -> Dv v (fun y0 : asg D => rmul c (f y0)) y = rmul c (Dv v f y)) ->
-         (forall (v : nat) (S : list nat) (g f : asg D -> R),
+         forall (D : Type) (DF : (Base.asg D -> R) -> Prop),
+         (forall f g : Base.asg D -> R, (forall y : Base.asg D, f y = g y) -> DF f -> DF g) ->
+         (forall c : R, DF (fun _ : Base.asg D => c)) ->
+         (forall f g : Base.asg D -> R, DF f -> DF g -> DF (fun y : Base.asg D => radd (f y) (g y))) ->
+         (forall f g : Base.asg D -> R, DF f -> DF g -> DF (fun y : Base.asg D => rmul (f y) (g y))) ->
+         forall Dv : nat -> (Base.asg D -> R) -> Base.asg D -> R,
+         (forall (v : nat) (f g : Base.asg D -> R),
+          (forall y : Base.asg D, f y = g y) -> forall y : Base.asg D, Dv v f y = Dv v g y) ->
+         (forall (v : nat) (f g : Base.asg D -> R) (y : Base.asg D),
+          DF f -> DF g -> Dv v (fun y0 : Base.asg D => radd (f y0) (g y0)) y = radd (Dv v f y) (Dv v g y)) ->
+         (forall (v : nat) (c : R) (f : Base.asg D -> R) (y : Base.asg D),
+          DF f -> Dv v (fun y0 : Base.asg D => rmul c (f y0)) y = rmul c (Dv v f y)) ->
+         (forall (v : nat) (S : list nat) (g f : Base.asg D -> R),
           dep_on R D S g ->
           ~ In v S ->
-          DF f -> forall y : asg D, Dv v (fun y0 : asg D => rmul (g y0) (f y0)) y = rmul (g y) (Dv v f y)) ->
-         (forall (v : nat) (S : list nat) (f : asg D -> R),
-          dep_on R D S f -> ~ In v S -> forall y : asg D, Dv v f y = rO) ->
-         forall (vars : list nat) (c : circuit R D),
+          DF f ->
+          forall y : Base.asg D, Dv v (fun y0 : Base.asg D => rmul (g y0) (f y0)) y = rmul (g y) (Dv v f y)) ->
+         (forall (v : nat) (S : list nat) (f : Base.asg D -> R),
+          dep_on R D S f -> ~ In v S -> forall y : Base.asg D, Dv v f y = rO) ->
+         forall (vars : list nat) (c : Circ.circuit R D),
          ok R rO D c ->
          inputs_DF R rO D DF c ->
-         forall (y : asg D) (i : nat),
+         forall (y : Base.asg D) (i : nat),
          i < length c ->
-         nth (cidx (length vars) i) (eval R rO radd rmul D (differentiate R rO D Dv vars c) y) [] =
+         nth (Differentiate.cidx (length vars) i) (eval R rO radd rmul D (differentiate R rO D Dv vars c) y) [] =
          nth i (eval R rO radd rmul D c y) [] /\
          (forall t : nat,
           t < length vars ->
           forall k : nat,
           nth k (nth (didx (length vars) i t) (eval R rO radd rmul D (differentiate R rO D Dv vars c) y) []) rO =
-          Dv (nth t vars 0) (fun y' : asg D => nth k (nth i (eval R rO radd rmul D c y') []) rO) y).
+          Dv (nth t vars 0) (fun y' : Base.asg D => nth k (nth i (eval R rO radd rmul D c y') []) rO) y).
 Proof. exact differentiate_correct. Qed.
 Print Assumptions C05_differentiate.
 
@@ -51,37 +60,38 @@ Print Assumptions C05_differentiate.
 Theorem C05_outputs_sorted :
   forall (R : Type) (rO rI : R) (radd rmul : R -> R -> R),
          semi_ring_theory rO rI radd rmul eq ->
-         forall (D : Type) (DF : (asg D -> R) -> Prop),
-         (forall f g : asg D -> R, (forall y : asg D, f y = g y) -> DF f -> DF g) ->
-         (forall c : R, DF (fun _ : asg D => c)) ->
-         (forall f g : asg D -> R, DF f -> DF g -> DF (fun y : asg D => radd (f y) (g y))) ->
-         (forall f g : asg D -> R, DF f -> DF g -> DF (fun y : asg D => rmul (f y) (g y))) ->
-         forall Dv : nat -> (asg D -> R) -> asg D -> R,
-         (forall (v : nat) (f g : asg D -> R),
-          (forall y : asg D, f y = g y) -> forall y : asg D, Dv v f y = Dv v g y) ->
-         (forall (v : nat) (f g : asg D -> R) (y : asg D),
-          DF f -> DF g -> Dv v (fun y0 : asg D => radd (f y0) (g y0)) y = radd (Dv v f y) (Dv v g y)) ->
-         (forall (v : nat) (c : R) (f : asg D -> R) (y : asg D),
-          DF f -> Dv v (fun y0 : asg D => rmul c (f y0)) y = rmul c (Dv v f y)) ->
-         (forall (v : nat) (S : list nat) (g f : asg D -> R),
+         forall (D : Type) (DF : (Base.asg D -> R) -> Prop),
+         (forall f g : Base.asg D -> R, (forall y : Base.asg D, f y = g y) -> DF f -> DF g) ->
+         (forall c : R, DF (fun _ : Base.asg D => c)) ->
+         (forall f g : Base.asg D -> R, DF f -> DF g -> DF (fun y : Base.asg D => radd (f y) (g y))) ->
+         (forall f g : Base.asg D -> R, DF f -> DF g -> DF (fun y : Base.asg D => rmul (f y) (g y))) ->
+         forall Dv : nat -> (Base.asg D -> R) -> Base.asg D -> R,
+         (forall (v : nat) (f g : Base.asg D -> R),
+          (forall y : Base.asg D, f y = g y) -> forall y : Base.asg D, Dv v f y = Dv v g y) ->
+         (forall (v : nat) (f g : Base.asg D -> R) (y : Base.asg D),
+          DF f -> DF g -> Dv v (fun y0 : Base.asg D => radd (f y0) (g y0)) y = radd (Dv v f y) (Dv v g y)) ->
+         (forall (v : nat) (c : R) (f : Base.asg D -> R) (y : Base.asg D),
+          DF f -> Dv v (fun y0 : Base.asg D => rmul c (f y0)) y = rmul c (Dv v f y)) ->
+         (forall (v : nat) (S : list nat) (g f : Base.asg D -> R),
           dep_on R D S g ->
           ~ In v S ->
-          DF f -> forall y : asg D, Dv v (fun y0 : asg D => rmul (g y0) (f y0)) y = rmul (g y) (Dv v f y)) ->
-         (forall (v : nat) (S : list nat) (f : asg D -> R),
-          dep_on R D S f -> ~ In v S -> forall y : asg D, Dv v f y = rO) ->
-         forall (vars : list nat) (c : circuit R D) (o : nat),
+          DF f ->
+          forall y : Base.asg D, Dv v (fun y0 : Base.asg D => rmul (g y0) (f y0)) y = rmul (g y) (Dv v f y)) ->
+         (forall (v : nat) (S : list nat) (f : Base.asg D -> R),
+          dep_on R D S f -> ~ In v S -> forall y : Base.asg D, Dv v f y = rO) ->
+         forall (vars : list nat) (c : Circ.circuit R D) (o : nat),
          ok R rO D c ->
          inputs_DF R rO D DF c ->
          o < length c ->
-         (forall (y : asg D) (k : nat),
+         (forall (y : Base.asg D) (k : nat),
           map
             (fun idx : nat => nth k (nth idx (eval R rO radd rmul D (differentiate R rO D Dv vars c) y) []) rO)
-            (outs R D vars c o) =
-          map (fun v : nat => Dv v (fun y' : asg D => nth k (nth o (eval R rO radd rmul D c y') []) rO) y)
-            (dvars vars (nth o (scopes R D c) [])) ++ [nth k (nth o (eval R rO radd rmul D c y) []) rO]) /\
+            (Differentiate.outs R D vars c o) =
+          map (fun v : nat => Dv v (fun y' : Base.asg D => nth k (nth o (eval R rO radd rmul D c y') []) rO) y)
+            (dvars vars (nth o (Circ.scopes R D c) [])) ++ [nth k (nth o (eval R rO radd rmul D c y) []) rO]) /\
          (forall v : nat,
-          In v (dvars vars (nth o (scopes R D c) [])) <-> In v vars /\ In v (nth o (scopes R D c) [])) /\
-         (StronglySorted lt vars -> StronglySorted lt (dvars vars (nth o (scopes R D c) []))).
+          In v (dvars vars (nth o (Circ.scopes R D c) [])) <-> In v vars /\ In v (nth o (Circ.scopes R D c) [])) /\
+         (StronglySorted lt vars -> StronglySorted lt (dvars vars (nth o (Circ.scopes R D c) []))).
 Proof. exact differentiate_outputs. Qed.
 Print Assumptions C05_outputs_sorted.
 
@@ -89,36 +99,37 @@ Print Assumptions C05_outputs_sorted.
 Theorem C05_differentiate_total :
   forall (R : Type) (rO rI : R) (radd rmul : R -> R -> R),
          semi_ring_theory rO rI radd rmul eq ->
-         forall (D : Type) (Dv : nat -> (asg D -> R) -> asg D -> R),
-         (forall (v : nat) (f g : asg D -> R),
-          (forall y : asg D, f y = g y) -> forall y : asg D, Dv v f y = Dv v g y) ->
-         (forall (v : nat) (f g : asg D -> R) (y : asg D),
-          Dv v (fun y0 : asg D => radd (f y0) (g y0)) y = radd (Dv v f y) (Dv v g y)) ->
-         (forall (v : nat) (c : R) (f : asg D -> R) (y : asg D),
-          Dv v (fun y0 : asg D => rmul c (f y0)) y = rmul c (Dv v f y)) ->
-         (forall (v : nat) (S : list nat) (g f : asg D -> R),
+         forall (D : Type) (Dv : nat -> (Base.asg D -> R) -> Base.asg D -> R),
+         (forall (v : nat) (f g : Base.asg D -> R),
+          (forall y : Base.asg D, f y = g y) -> forall y : Base.asg D, Dv v f y = Dv v g y) ->
+         (forall (v : nat) (f g : Base.asg D -> R) (y : Base.asg D),
+          Dv v (fun y0 : Base.asg D => radd (f y0) (g y0)) y = radd (Dv v f y) (Dv v g y)) ->
+         (forall (v : nat) (c : R) (f : Base.asg D -> R) (y : Base.asg D),
+          Dv v (fun y0 : Base.asg D => rmul c (f y0)) y = rmul c (Dv v f y)) ->
+         (forall (v : nat) (S : list nat) (g f : Base.asg D -> R),
           dep_on R D S g ->
-          ~ In v S -> forall y : asg D, Dv v (fun y0 : asg D => rmul (g y0) (f y0)) y = rmul (g y) (Dv v f y)) ->
-         (forall (v : nat) (S : list nat) (f : asg D -> R),
-          dep_on R D S f -> ~ In v S -> forall y : asg D, Dv v f y = rO) ->
-         forall (vars : list nat) (c : circuit R D),
+          ~ In v S ->
+          forall y : Base.asg D, Dv v (fun y0 : Base.asg D => rmul (g y0) (f y0)) y = rmul (g y) (Dv v f y)) ->
+         (forall (v : nat) (S : list nat) (f : Base.asg D -> R),
+          dep_on R D S f -> ~ In v S -> forall y : Base.asg D, Dv v f y = rO) ->
+         forall (vars : list nat) (c : Circ.circuit R D),
          ok R rO D c ->
-         forall (y : asg D) (i : nat),
+         forall (y : Base.asg D) (i : nat),
          i < length c ->
-         nth (cidx (length vars) i) (eval R rO radd rmul D (differentiate R rO D Dv vars c) y) [] =
+         nth (Differentiate.cidx (length vars) i) (eval R rO radd rmul D (differentiate R rO D Dv vars c) y) [] =
          nth i (eval R rO radd rmul D c y) [] /\
          (forall t : nat,
           t < length vars ->
           forall k : nat,
           nth k (nth (didx (length vars) i t) (eval R rO radd rmul D (differentiate R rO D Dv vars c) y) []) rO =
-          Dv (nth t vars 0) (fun y' : asg D => nth k (nth i (eval R rO radd rmul D c y') []) rO) y).
+          Dv (nth t vars 0) (fun y' : Base.asg D => nth k (nth i (eval R rO radd rmul D c y') []) rO) y).
 Proof. exact differentiate_correct_total. Qed.
 Print Assumptions C05_differentiate_total.
 
 (* INSTANCE over the real numbers (Coquelicot): for every ok circuit over R whose input functions are differentiable in each variable, block (i,t) of the differentiated circuit IS the partial derivative (is_derive: existence included) w.r.t. variable nth t vars of unit k of node i; uses the standard library's real-number axioms and functional extensionality (named in the trusted base) *)
 Theorem C05_differentiate_real :
   forall (vars : list nat) (c : circuitR),
-         ok R 0%R R c ->
+         ok RbaseSymbolsImpl.R 0%R RbaseSymbolsImpl.R c ->
          inputs_differentiable c ->
          forall (y : asgR) (i : nat),
          i < length c ->
@@ -126,44 +137,135 @@ Theorem C05_differentiate_real :
          t < length vars ->
          forall k : nat,
          is_derive
-           (fun x : R_AbsRing => nth k (nth i (eval R 0%R Rplus Rmult R c (updR y (nth t vars 0) x)) []) 0%R)
-           (y (nth t vars 0))
-           (nth k (nth (didx (length vars) i t) (eval R 0%R Rplus Rmult R (differentiateR vars c) y) []) 0%R).
+           (fun x : R_AbsRing =>
+            nth k
+              (nth i (eval RbaseSymbolsImpl.R 0%R Rplus Rmult RbaseSymbolsImpl.R c (updR y (nth t vars 0) x))
+                 []) 0%R) (y (nth t vars 0))
+           (nth k
+              (nth (didx (length vars) i t)
+                 (eval RbaseSymbolsImpl.R 0%R Rplus Rmult RbaseSymbolsImpl.R (differentiateR vars c) y) []) 0%R).
 Proof. exact differentiate_real_is_derive. Qed.
 Print Assumptions C05_differentiate_real.
 
 (* ... stated with Coquelicot's total Derive *)
 Theorem C05_differentiate_real_Derive :
   forall (vars : list nat) (c : circuitR),
-         ok R 0%R R c ->
+         ok RbaseSymbolsImpl.R 0%R RbaseSymbolsImpl.R c ->
          inputs_differentiable c ->
          forall (y : asgR) (i : nat),
          i < length c ->
          forall t : nat,
          t < length vars ->
          forall k : nat,
-         nth k (nth (didx (length vars) i t) (eval R 0%R Rplus Rmult R (differentiateR vars c) y) []) 0%R =
-         Derive (fun x : R => nth k (nth i (eval R 0%R Rplus Rmult R c (updR y (nth t vars 0) x)) []) 0%R)
-           (y (nth t vars 0)).
+         nth k
+           (nth (didx (length vars) i t)
+              (eval RbaseSymbolsImpl.R 0%R Rplus Rmult RbaseSymbolsImpl.R (differentiateR vars c) y) []) 0%R =
+         Derive
+           (fun x : RbaseSymbolsImpl.R =>
+            nth k
+              (nth i (eval RbaseSymbolsImpl.R 0%R Rplus Rmult RbaseSymbolsImpl.R c (updR y (nth t vars 0) x))
+                 []) 0%R) (y (nth t vars 0)).
 Proof. exact differentiate_real. Qed.
 Print Assumptions C05_differentiate_real_Derive.
 
 (* every unit of every node of such a circuit is differentiable in each variable *)
 Theorem C05_circuits_differentiable :
   forall c : circuitR,
-         ok R 0%R R c ->
+         ok RbaseSymbolsImpl.R 0%R RbaseSymbolsImpl.R c ->
          inputs_differentiable c ->
          forall i : nat,
          i < length c ->
          forall (k : nat) (y : asgR) (v : nat),
-         ex_derive (fun x : R_AbsRing => nth k (nth i (eval R 0%R Rplus Rmult R c (updR y v x)) []) 0%R) (y v).
+         ex_derive
+           (fun x : R_AbsRing =>
+            nth k (nth i (eval RbaseSymbolsImpl.R 0%R Rplus Rmult RbaseSymbolsImpl.R c (updR y v x)) []) 0%R)
+           (y v).
 Proof. exact eval_differentiable. Qed.
 Print Assumptions C05_circuits_differentiable.
 
 (* non-vacuity: a quadratic polynomial input function meets the hypotheses, with derivative a1 + 2 a2 x *)
 Theorem C05_polynomial_input_instance :
-  forall (v : nat) (a0 a1 a2 : R) (y : asgR),
+  forall (v : nat) (a0 a1 a2 : RbaseSymbolsImpl.R) (y : asgR),
          is_derive (fun x : R_AbsRing => (a0 + a1 * updR y v x v + a2 * updR y v x v ^ 2)%R) 
            (y v) (a1 + 2 * a2 * y v)%R.
 Proof. exact poly_is_derive. Qed.
 Print Assumptions C05_polynomial_input_instance.
+
+(* EXECUTABLE level: for every well-formed circuit on which differentiate_m 1 (model of cirkit.symbolic.functional.differentiate with its per-layer rules, incl. PolynomialDifferential and the non-commutative Kronecker positions) returns, the copy of node i keeps its value and block (i,v) evaluates to the TANGENT of the dual-number (forward-mode) evaluation of node i w.r.t. variable v, whose primal part is the ordinary denotation; definedness is preserved *)
+Theorem C05_differentiate_executable :
+  forall (c c' : circuit) (y : asg) (vals : list cvec),
+         wf c = true ->
+         differentiate_m 1 c = Ok c' ->
+         den_all c y = Some vals ->
+         exists vals' : list cvec,
+           den_all c' y = Some vals' /\
+           (forall i : nat,
+            i < length (nodes c) ->
+            nth (copy_ix 1 c i) vals' [] = nth i vals [] /\
+            (forall v : nat,
+             In v (nth i (scopes c) []) ->
+             exists (d : nat) (vd : list (list DC)),
+               block_ix 1 c i v = Some d /\
+               d < length (nodes c') /\
+               dden_all v c y = Some vd /\ map (map fst) vd = vals /\ nth d vals' [] = map snd (nth i vd []))).
+Proof. exact differentiate_exec_den. Qed.
+Print Assumptions C05_differentiate_executable.
+
+(* hence the outputs are, per output o of c: the derivative w.r.t. each variable of scope(o) in increasing order, then the value itself *)
+Theorem C05_differentiate_executable_outputs :
+  forall (c c' : circuit) (y : asg) (vals : list cvec),
+         wf c = true ->
+         differentiate_m 1 c = Ok c' ->
+         den_all c y = Some vals ->
+         (forall v : nat, dden_all v c y = Some (dvals v c y)) /\
+         den c' y =
+         Some
+           (flat_map
+              (fun o : nat =>
+               map (fun v : nat => map snd (nth o (dvals v c y) [])) (nth o (scopes c) []) ++ [nth o vals []])
+              (outs c)).
+Proof. exact differentiate_exec_den_outputs. Qed.
+Print Assumptions C05_differentiate_executable_outputs.
+
+(* any order k: block (i,v) is the k-th pure partial derivative (k-jet seed at the polynomial inputs over v) *)
+Theorem C05_differentiate_executable_order_k :
+  forall (k : nat) (c c' : circuit) (y : asg) (vals : list cvec),
+         wf c = true ->
+         differentiate_m k c = Ok c' ->
+         den_all c y = Some vals ->
+         exists vals' : list cvec,
+           den_all c' y = Some vals' /\
+           (forall i : nat,
+            i < length (nodes c) ->
+            nth (copy_ix k c i) vals' [] = nth i vals [] /\
+            (forall v : nat,
+             In v (nth i (scopes c) []) ->
+             exists d : nat,
+               block_ix k c i v = Some d /\
+               d < length (nodes c') /\ nth d vals' [] = map snd (nth i (jvals k v c y) []))).
+Proof. exact differentiate_exec_den_k. Qed.
+Print Assumptions C05_differentiate_executable_order_k.
+
+(* block_{n+1}(i,v) is the derivative w.r.t. v of block_n(i,v) *)
+Theorem C05_order_successor :
+  forall (n : nat) (c c' : circuit) (y : asg) (vals : list cvec),
+         wf c = true ->
+         differentiate_m (Datatypes.S n) c = Ok c' ->
+         den_all c y = Some vals ->
+         exists vals' : list cvec,
+           den_all c' y = Some vals' /\
+           (forall i v : nat,
+            i < length (nodes c) ->
+            In v (nth i (scopes c) []) ->
+            exists (d : nat) (vd : list (list DC)),
+              block_ix (Datatypes.S n) c i v = Some d /\
+              dden_all v (shiftv n v c) y = Some vd /\ nth d vals' [] = map snd (nth i vd [])).
+Proof. exact differentiate_order_succ. Qed.
+Print Assumptions C05_order_successor.
+
+(* the primal part of the dual-number evaluation is the executable denotation *)
+Theorem C05_dual_primal_is_denotation :
+  forall (v : nat) (c : circuit) (y : asg),
+         dfrag c = true -> option_map (map (map fst)) (dden_all v c y) = den_all c y.
+Proof. exact dden_primal. Qed.
+Print Assumptions C05_dual_primal_is_denotation.
